@@ -43,8 +43,8 @@ ASSUMPTIONS = [
     "frame is C01/C02's business",
 ]
 
-QUICK_COMPLETE = 3000     # rows with at most this many argument tuples are enumerated completely in quick
-QUICK_SAMPLE = 1500       # strata for larger rows in quick (>= 40 by a wide margin)
+QUICK_COMPLETE = 70000    # rows with at most this many argument tuples are enumerated completely in quick
+QUICK_SAMPLE = 150000     # strata for larger rows in quick (only the 10-bit light event: 2.26 M tuples)
 CHUNK = 24000             # indices per shard
 
 
@@ -198,6 +198,10 @@ def _mismatch_sigs(row, args, got, exp):
             sigs.append("C03:address-bits:" + _dest_kind(row, args))
         elif field == "instance":
             sigs.append("C03:instance-bits:" + T.instance_kind(args["inst"])[0])
+        elif field == "selector":
+            sigs.append("C03:selector-bit:" + row.form)
+        elif field == "marker":
+            sigs.append("C03:device-marker-bits:" + row.form)
         elif field == "event-scheme":
             sigs.append("C03:event-scheme-bits:" + args["scheme"])
         elif field == "event-type":
@@ -207,6 +211,16 @@ def _mismatch_sigs(row, args, got, exp):
         else:
             sigs.append("C03:frame-bits:" + name)
     return sigs or ["C03:frame-bits:" + name]
+
+
+def _devicetype_sig(row, cls):
+    """A wrong device type is usually set on a per-part base class: name the class that defines it."""
+    for k in cls.__mro__:
+        if "devicetype" in k.__dict__:
+            if k.__module__ == row.module:
+                return "C03:devicetype:%s.%s" % (row.module.rsplit(".", 1)[1], k.__name__)
+            break
+    return "C03:devicetype:" + short_name(row)
 
 
 def check_frame(row, cls, args, mods):
@@ -241,7 +255,13 @@ def check_frame(row, cls, args, mods):
         out.append(("C03:decode-raised:%s:%s" % (name, type(e).__name__),
                     "%s: from_frame(%#x) raised %r" % (where, exp, e)))
     else:
-        if type(dec) is not cls:
+        if type(dec) is not cls and cls.devicetype != row.devicetype:
+            # consequence of a wrong device type on the class: same root cause as the flags case reports
+            out.append((_devicetype_sig(row, cls), "%s: standard frame %#0*x after ENABLE DEVICE TYPE %d decodes to "
+                        "%s.%s; the class carries devicetype %r" % (where, row.bits // 4 + 2, exp, row.devicetype,
+                                                                    type(dec).__module__, type(dec).__name__,
+                                                                    cls.devicetype)))
+        elif type(dec) is not cls:
             out.append(("C03:decode-name:" + name, "%s: standard frame %#0*x (devicetype %d) decodes to %s.%s"
                         % (where, row.bits // 4 + 2, exp, row.devicetype,
                            type(dec).__module__, type(dec).__name__)))
@@ -271,7 +291,7 @@ def check_flags(row, cls, mods):
         out.append(("C03:answer-kind:" + name, "%s: answer kind is %s (response=%r), standard says %s"
                     % (row.name, k, cls.response, row.answer)))
     if cls.devicetype != row.devicetype:
-        out.append(("C03:devicetype:" + name, "%s: devicetype is %r, standard says %r"
+        out.append((_devicetype_sig(row, cls), "%s: devicetype is %r, standard says %r"
                     % (row.name, cls.devicetype, row.devicetype)))
     if getattr(cls, "_framesize", None) != row.bits:
         out.append(("C03:frame-size:" + name, "%s: class frame size %r, standard says %d"
